@@ -231,8 +231,11 @@ class _FnAnalysis:
         if name in self.params:
             v = vjoin(v, VFRESH if self.eff.ann_immutable(self.param_ann.get(name)) else pvec(name))
             has = True
+        bound = name in self.params
         for how, e in self.defs.get(name, []):
             has = True
+            if how not in ("cont", "merge"):
+                bound = True
             if how == "fresh":
                 v = vjoin(v, VFRESH)
             elif isinstance(how, tuple) and how[0] == "item":
@@ -255,6 +258,9 @@ class _FnAnalysis:
                 v = vjoin(v, x)
         if not has:
             v = self.global_vec(name)
+        elif not bound:
+            # only written INTO (x[k] = .., x.append(..)) and never bound here: the object is the module-level one
+            v = vjoin(v, self.global_vec(name))
         self.in_progress.discard(name)
         self.memo[name] = v
         return v
